@@ -3,7 +3,7 @@ CONSTANTS
   Cfgs <- McQuickCfgs
   FeatureSets <- CoreFeatureSets
   MaxConn = 2
-  MaxQ = 2
+  MaxQ = 1
   MaxHist = 99
 INVARIANTS TypeOK C04_NoLeak C04_NoAuthPlain C10_DownMeansDown C10_OneSessionPerConnection C10_SessionOnlyWhenDone C10_RequestsSettled
 PROPERTIES C04_GivesUp C10_FreshStart
